@@ -403,6 +403,86 @@ func factsDeterminism() {
 	})
 	emitPairs("packageVarWriters", globalWrites, "every write (assignment, indexed assignment, increment, delete) to a package-level variable from a function other than init, consensus packages: file::variable → function")
 
+	// slices handed out by a KVStore (`x := store.Get(key)`, any receiver whose name contains "store") that the same
+	// function then writes through: the slice is the store's (cached, committed) copy, and a write through it is neither
+	// journalled nor rolled back when the surrounding transaction is
+	var inPlace [][2]string
+	for _, p := range pkgs {
+		for _, f := range p.Syntax {
+			fn := strings.TrimPrefix(p.Fset.Position(f.Pos()).Filename, repo+"/")
+			if skipFile("/" + fn) {
+				continue
+			}
+			for _, d := range f.Decls {
+				fd, ok := d.(*ast.FuncDecl)
+				if !ok || fd.Body == nil {
+					continue
+				}
+				name := fd.Name.Name
+				if fd.Recv != nil && len(fd.Recv.List) > 0 {
+					name = typeName(fd.Recv.List[0].Type) + "." + name
+				}
+				fromStore := map[string]bool{}
+				ast.Inspect(fd.Body, func(n ast.Node) bool {
+					as, ok := n.(*ast.AssignStmt)
+					if !ok || len(as.Rhs) != 1 {
+						return true
+					}
+					ce, ok := as.Rhs[0].(*ast.CallExpr)
+					if !ok {
+						return true
+					}
+					se, ok := ce.Fun.(*ast.SelectorExpr)
+					if !ok || se.Sel.Name != "Get" || !strings.Contains(strings.ToLower(exprName(se.X)), "store") {
+						return true
+					}
+					if id, ok := as.Lhs[0].(*ast.Ident); ok && id.Name != "_" {
+						fromStore[id.Name] = true
+					}
+					return true
+				})
+				if len(fromStore) == 0 {
+					continue
+				}
+				hit := map[string]bool{}
+				ast.Inspect(fd.Body, func(n ast.Node) bool {
+					switch t := n.(type) {
+					case *ast.AssignStmt:
+						for _, l := range t.Lhs {
+							if ix, ok := l.(*ast.IndexExpr); ok {
+								if id, ok := ix.X.(*ast.Ident); ok && fromStore[id.Name] {
+									hit[id.Name] = true
+								}
+							}
+						}
+					case *ast.CallExpr:
+						fun := exprName(t.Fun)
+						if len(t.Args) > 0 && (strings.Contains(fun, "PutUint") || fun == "copy") {
+							a := t.Args[0]
+							if sl, ok := a.(*ast.SliceExpr); ok {
+								a = sl.X
+							}
+							if id, ok := a.(*ast.Ident); ok && fromStore[id.Name] {
+								hit[id.Name] = true
+							}
+						}
+					}
+					return true
+				})
+				for v := range hit {
+					inPlace = append(inPlace, [2]string{fn + "::" + name, v})
+				}
+			}
+		}
+	}
+	sort.Slice(inPlace, func(i, j int) bool {
+		if inPlace[i][0] != inPlace[j][0] {
+			return inPlace[i][0] < inPlace[j][0]
+		}
+		return inPlace[i][1] < inPlace[j][1]
+	})
+	emitPairs("storeSlicesWrittenInPlace", inPlace, "every function (consensus packages) that writes through a slice it obtained from a KVStore Get (indexed assignment, binary PutUint*, copy into it): file::function → variable")
+
 	// bank-keeper methods called from Haqq's own packages (by the type of the receiver expression)
 	bankMethods := map[string]bool{}
 	for _, p := range pkgs {
